@@ -281,3 +281,72 @@ pub fn replay(prop: &str, case: &Value) -> i32 {
         1
     }
 }
+
+// ---------------------------------------------------------------------------------------------
+// C15: the shared history set plus a timestamp lattice with cross-track equalities
+// ---------------------------------------------------------------------------------------------
+
+fn increasing(points: usize, len: usize, strict: bool, from: usize) -> Vec<Vec<usize>> {
+    fn rec(points: usize, len: usize, strict: bool, lo: usize, cur: &mut Vec<usize>, out: &mut Vec<Vec<usize>>) {
+        if cur.len() == len {
+            out.push(cur.clone());
+            return;
+        }
+        for p in lo..points {
+            cur.push(p);
+            rec(points, len, strict, if strict { p + 1 } else { p }, cur, out);
+            cur.pop();
+        }
+    }
+    let mut out = vec![];
+    rec(points, len, strict, from, &mut vec![], &mut out);
+    out
+}
+
+pub fn check_c15(ctx: &Ctx) -> i32 {
+    let (mut tally, mut meta) = collect_file_prop(ctx, FileProp::C15);
+    let (nvm, nam) = if ctx.thorough { (4, 4) } else { (3, 3) };
+    const POINTS: usize = 6;
+    let step = 0.02f64; // 1800 ticks
+    let mut items: Vec<(Cfg, Vec<usize>)> = vec![];
+    for codec in if ctx.thorough { vec![oracle::frames::VCodec::H264, oracle::frames::VCodec::Vp9] } else { vec![oracle::frames::VCodec::H264] } {
+        for ac in [oracle::frames::ACodec::AacLc, oracle::frames::ACodec::Opus] {
+            for fs in [true, false] {
+                for nv in 1..=nvm {
+                    for v in increasing(POINTS, nv, true, 0) {
+                        items.push((Cfg::basic(codec, Some(ac), fs), v));
+                    }
+                }
+            }
+        }
+    }
+    let t2 = par_items(&items, ctx.seed, |idx, (cfg, vts), t| {
+        let mut k = 0u64;
+        let nv = vts.len();
+        for na in 1..=nam {
+            for ats in increasing(POINTS, na, false, vts[0]) {
+                for order in hist::orders(nv, na) {
+                    let mut ops = vec![];
+                    let (mut vi, mut ai) = (0, 0);
+                    for &is_v in &order {
+                        if is_v {
+                            let (d, _) = oracle::frames::video_frame(cfg.codec, vi == 0, vi == 0, vi as u32 + 1, 4 + vi);
+                            ops.push(Op::WV { pts: oracle::model::T(vts[vi] as f64 * step), data: oracle::model::Bytes::new(d), key: vi == 0 });
+                            vi += 1;
+                        } else {
+                            let (d, _) = oracle::frames::audio_frame(cfg.audio.as_ref().unwrap().codec, ai as u32, 5 + ai);
+                            ops.push(Op::WA { pts: oracle::model::T(ats[ai] as f64 * step), data: oracle::model::Bytes::new(d) });
+                            ai += 1;
+                        }
+                    }
+                    k += 1;
+                    judge_history(FileProp::C15, cfg, &ops, (5_000_000 + idx as u64, k), t);
+                }
+            }
+        }
+    });
+    tally.count("lattice_histories", t2.evaluations);
+    tally.merge(t2);
+    meta.rule = format!("(1) {} (2) timestamp lattice: video timestamps = every strictly increasing choice of <= {nvm} points of {{0,1,..,5}} x 0.02 s, audio timestamps = every non-decreasing choice of <= {nam} points not before the first video point (so cross-track equalities at every index combination occur), every admissible submission order (bursts, all-video-first, alternation), {{AAC, Opus}} x both layouts: storage order by file offset must equal the merge by (tick, video first, sample number)", meta.rule);
+    finish(ctx, &tally, meta)
+}
